@@ -379,3 +379,90 @@ def run(ctx):  # noqa: F811
     _run_c17b(ctx)
     r17_4(ctx, ctx.model)
     r17_5(ctx, ctx.model)
+
+
+def r17_6(ctx, m):
+    ctx.rule("R17.6", "trust-region Newton-CG: acceptance replaces the WHOLE state atomically - the where(rho > eta, accepted, kept) "
+                      "selection carries energy, position, gradient and gradient norm together, both tuples in the same order "
+                      "(an energy taken from a rejected proposal makes the next proposal be measured against a point that is not "
+                      "the current one)", floor=1)
+    fi = m.func(O, "_trust_ncg._trust_region_body_f", required=False)
+    if fi is None:
+        ctx.und("R17.6", f"{O}::_trust_ncg._trust_region_body_f", "function missing", O)
+    else:
+        ctx.saw_func(fi)
+        sels = [st for st in walk_no_nested(fi.node) if isinstance(st, ast.Assign) and isinstance(st.value, ast.Call) and call_name(st.value) == "where"
+                and len(st.value.args) == 3 and isinstance(st.value.args[1], ast.Tuple) and isinstance(st.value.args[2], ast.Tuple) and "rho" in src(st.value.args[0])]
+        key = f"{fi.key}::accepted / kept state tuples"
+        if len(sels) != 1:
+            ctx.und("R17.6", key, f"{len(sels)} state selections on rho", fi)
+        else:
+            acc, kept = [src(e) for e in sels[0].value.args[1].elts], [src(e) for e in sels[0].value.args[2].elts]
+            import re as _re
+            roles = lambda names: [_re.sub(r"_k(p1)?", "", n_) for n_ in names]
+            has_f = any(r_ in ("f", "fun", "energy") for r_ in roles(acc))
+            same = roles(acc) == roles(kept) and all(a.endswith("kp1") or "kp1" in a for a in acc) and not any("kp1" in k for k in kept)
+            if not has_f:
+                ctx.bad("R17.6", key, f"accepted {acc} / kept {kept}: the energy is not part of the selection, so the energy of a rejected proposal is carried on", fi, sels[0])
+            else:
+                ctx.check("R17.6", key, True if same else None, f"accepted {acc} / kept {kept}", fi, sels[0])
+    ctx.rule("R17.7", "compiled Newton-CG step: the iteration-limit status only applies to a still running state "
+                      "(`(i == maxiter) & (status < -1)`) and is assigned after the convergence / line-search verdicts, so a run that "
+                      "converges (or aborts) exactly in iteration maxiter reports that verdict, as the eager loop does", floor=2)
+    s = m.func(O, "_static_newton_cg.single_newton_cg_step", required=False)
+    if s is None:
+        ctx.und("R17.7", f"{O}::_static_newton_cg.single_newton_cg_step", "function missing", O)
+        return
+    ctx.saw_func(s)
+    sts = sorted((st for st in walk_no_nested(s.node) if isinstance(st, ast.Assign) and src(st.targets[0]) == "status" and isinstance(st.value, ast.Call)
+                  and call_name(st.value) == "where"), key=lambda st: st.lineno)
+    lim = [st for st in sts if "maxiter" in src(st.value.args[0])]
+    key = f"{s.key}::iteration-limit status"
+    if len(lim) != 1:
+        ctx.und("R17.7", key, f"{len(lim)} limit assignments", s)
+        return
+    cond = src(lim[0].value.args[0]).replace(" ", "")
+    ctx.check("R17.7", key + " is guarded by the running state", "status<-1" in cond or "-1>status" in cond,
+              f"`{src(lim[0])}`: a verdict (0 converged / -1 aborted) assigned earlier in the same step is overwritten", s, lim[0])
+    later = [st for st in sts if st.lineno > lim[0].lineno]
+    ctx.check("R17.7", key + " is assigned last", not later, f"`{short(later[0], 60)}` follows it" if later else None, s, lim[0])
+
+
+_run_c17c = run
+
+
+def run(ctx):  # noqa: F811
+    _run_c17c(ctx)
+    r17_6(ctx, ctx.model)
+
+
+def r17_8(ctx, m):
+    ctx.rule("R17.8", "trust-region sub-problem: the norm that decides 'the next iterate leaves the trust region' is the norm of the "
+                      "boundary the step is cut at - get_boundaries_intersections solves |z + t d|_2 = radius (vdot(z, z), vdot(d, d)), "
+                      "so the default of tr_norm_ord must be 2; with a weaker norm the previous iterate can already lie outside the "
+                      "sphere, the selected root is negative and the step ascends the model", floor=2)
+    gb = m.func(CG, "get_boundaries_intersections", required=False)
+    sp_ = m.func(CG, "_cg_steihaug_subproblem", required=False)
+    if gb is None or sp_ is None:
+        ctx.und("R17.8", f"{CG}::trust-region sub-problem", "functions missing", CG)
+        return
+    ctx.saw_func(gb)
+    ctx.saw_func(sp_)
+    t = src(gb.node).replace(" ", "")
+    two = "vdot(z,z)-trust_radius**2" in t and "vdot(d,d)" in t
+    ctx.check("R17.8", f"{gb.key}::intersects with the 2-norm sphere", True if two else None, None, gb)
+    dfl = [st for st in walk_no_nested(sp_.node) if isinstance(st, ast.Assign) and src(st.targets[0]) == "tr_norm_ord" and isinstance(st.value, ast.IfExp)]
+    key = f"{sp_.key}::default norm of the trust region"
+    if len(dfl) != 1 or not two:
+        ctx.und("R17.8", key, "default assignment not found", sp_)
+    else:
+        d = src(dfl[0].value.body)
+        ctx.check("R17.8", key, d in ("2", "2.0"), f"default `{d}`: 'outside' is decided with a norm that is not the one of the sphere the step is cut at", sp_, dfl[0])
+
+
+_run_c17d = run
+
+
+def run(ctx):  # noqa: F811
+    _run_c17d(ctx)
+    r17_8(ctx, ctx.model)
